@@ -748,6 +748,8 @@ def check_scenario(run, sc, res, mres, stats):
                 probs.append(("diff", "client %s (%s): model %s %s fetches=%d validates=%d, implementation %s %s aq_conns=%d opens=%d" % (
                     m["name"], m["kind"], mc, mf, n_aq, n_val, ic, itf, o["aq_opens"], o["opens"]), rp))
         stats["traces"] += 1
+        if o["salt"]:
+            stats.setdefault("salts", []).append(o["salt"])
         if o["auth_ok"]:
             admitted_markers.add(m["marker"])
         # ---- monitor M1: AuthenticationOk only with valid credentials (hashlib oracle, no model)
@@ -870,6 +872,121 @@ def oracle_ident(raw):
     return d["user"], d.get("database", d["user"])
 
 
+# ------------------------------------------------------------------ salts: a statistical monitor (NOT a theorem) and a directed replay probe
+# The theorems quantify over every salt; what binds an answer to ONE connection is that md5_challenge draws the salt at
+# random.  That is a property of the generator, checked here on the salts actually issued during the run.
+PROBE_TRIES = 3000
+FALSE_ALARM_BUDGET = 1e-12
+
+
+def _lchoose(n, k):
+    import math
+    return math.lgamma(n + 1) - math.lgamma(k + 1) - math.lgamma(n - k + 1)
+
+
+def salt_thresholds(n, tries=PROBE_TRIES, budget=FALSE_ALARM_BUDGET):
+    """thresholds for n salts and, for each test, an upper bound of the probability that a UNIFORM independent 32-bit
+    generator trips it (union bounds; natural logs).  Returns (thresholds, bounds, total)."""
+    import math
+    share = budget / 8
+    th, bd = {}, {}
+    # (a) salts whose four bytes are equal: each with probability 2^-24;  P(X >= k) <= C(n,k) 2^-24k
+    k = 1
+    while _lchoose(n, k) + k * math.log(2.0 ** -24) > math.log(share):
+        k += 1
+    th["all_bytes_equal_min"], bd["all_bytes_equal"] = k, math.exp(_lchoose(n, k) + k * math.log(2.0 ** -24))
+    # (b) salts equal to an EARLIER salt (n - distinct): the j-th draw hits an earlier value with probability < n 2^-32,
+    #     independently of the past;  P(D >= k) <= C(n,k) (n 2^-32)^k
+    k = 1
+    while _lchoose(n, k) + k * math.log(n * 2.0 ** -32) > math.log(share):
+        k += 1
+    th["repeated_salts_min"], bd["repeated_salts"] = k, math.exp(_lchoose(n, k) + k * math.log(n * 2.0 ** -32))
+    # (c) a byte position with fewer than 200 distinct values: some set of 57 values never drawn at that position
+    th["distinct_values_per_position_min"] = 200
+    bd["distinct_values"] = 4 * math.exp(_lchoose(256, 57) + n * math.log(199.0 / 256)) if n else 1.0
+    # (d) two positions equal in more than 5% of the salts: Binomial(n, 1/256) tail, Chernoff with the KL divergence
+    q, p0 = 0.05, 1.0 / 256
+    kl = q * math.log(q / p0) + (1 - q) * math.log((1 - q) / (1 - p0))
+    th["positions_equal_fraction_max"] = q
+    bd["positions_equal"] = 6 * math.exp(-n * kl)
+    # (e) the directed probe reports only a replay admitted in TWO independent rounds: each needs the recorded salt to
+    #     recur within `tries` draws
+    bd["replay_two_rounds"] = (tries * 2.0 ** -32) ** 2
+    return th, bd, sum(bd.values())
+
+
+def salt_monitor(salts):
+    """-> (list of findings, info for the evidence)"""
+    n = len(salts)
+    th, bd, total = salt_thresholds(n)
+    info = {"salts": n, "distinct": len(set(salts)), "thresholds": th, "uniform_generator_false_alarm_bounds": bd,
+            "false_alarm_probability_upper_bound": total, "kind": "statistical monitor on the issued salts, not a theorem (the theorems hold for every salt)"}
+    finds = []
+    if n < 2000:
+        info["skipped"] = "fewer than 2000 salts collected"
+        return finds, info
+    eq = [x for x in salts if len(x) == 4 and len(set(x)) == 1]
+    info["all_bytes_equal"] = len(eq)
+    if len(eq) >= th["all_bytes_equal_min"]:
+        finds.append("%d of %d issued salts consist of one byte repeated four times (e.g. %s): at most 256 such salts exist" % (len(eq), n, eq[0].hex()))
+    rep = n - len(set(salts))
+    info["repeated"] = rep
+    if rep >= th["repeated_salts_min"]:
+        finds.append("%d of %d issued salts repeat an earlier salt (a uniform 32-bit salt repeats %.1e times on average)" % (rep, n, n * n / 2.0 / 2 ** 32))
+    dv = [len({x[i] for x in salts if len(x) == 4}) for i in range(4)]
+    info["distinct_values_per_position"] = dv
+    for i, d in enumerate(dv):
+        if d < th["distinct_values_per_position_min"]:
+            finds.append("byte %d of the salt takes only %d distinct values over %d salts" % (i, d, n))
+    pe = {}
+    for i in range(4):
+        for j in range(i + 1, 4):
+            f = sum(1 for x in salts if len(x) == 4 and x[i] == x[j]) / float(n)
+            pe["%d=%d" % (i, j)] = round(f, 5)
+            if f > th["positions_equal_fraction_max"]:
+                finds.append("bytes %d and %d of the salt are equal in %.1f%% of %d salts (uniform: 0.39%%)" % (i, j, 100 * f, n))
+    info["positions_equal_fraction"] = pe
+    return finds, info
+
+
+def start_salt_probe(probe_bin):
+    toml = W.make_toml(pools={"db1": {"users": [{"username": "alice", "password": "apw", "pool_size": 2}],
+                                      "shards": [{"database": "sdb", "servers": [["b0", "primary"]]}]}})
+    inp = {"toml": toml, "user": "alice", "database": "db1", "password": "apw", "tries": PROBE_TRIES, "rounds": 2, "tmpdir": vlib.TMP}
+    import subprocess
+    p = subprocess.Popen([probe_bin], stdin=subprocess.PIPE, stdout=subprocess.PIPE, stderr=subprocess.PIPE)
+    p.stdin.write(json.dumps(inp).encode())
+    p.stdin.close()
+    return p, inp
+
+
+def finish_salt_probe(run, probe, stats):
+    p, inp = probe
+    try:
+        out = p.stdout.read().decode("utf-8", "replace")
+        p.wait(timeout=180)
+        res = json.loads(out.strip().splitlines()[-1])
+    except Exception as ex:
+        run.broken.append("salt probe did not run: %s" % ex)
+        return
+    if "start_error" in res or not res.get("logins") or not res["logins"][0].get("ok"):
+        run.broken.append("salt probe: the reference login failed: %s" % json.dumps(res)[:300])
+        return
+    salts = [bytes.fromhex(x) for x in res["salts"]] + stats.get("salts", [])
+    finds, info = salt_monitor(salts)
+    admitted = [r for r in res["replays"] if r["admitted"]]
+    info["probe"] = {"tries": inp["tries"], "logins": len(res["logins"]), "recurrences_of_a_recorded_salt": len(res["replays"]), "replays_admitted": len(admitted)}
+    run.cov["salt_monitor"] = info
+    rp = {"monitor": "salt quality / replay", "salt_probe_input": inp, "logins": res["logins"], "replays": res["replays"],
+          "statistics": {k: info.get(k) for k in ("salts", "distinct", "all_bytes_equal", "repeated", "distinct_values_per_position", "positions_equal_fraction")}}
+    if len(admitted) >= 2:
+        a = admitted[0]
+        run.violation("counterexample", "replay: the PasswordMessage recorded on one connection (salt %s) was accepted on a later connection that was issued the same salt "
+                      "(after %d fresh connections; confirmed in a second round after %d): the answer is not bound to the connection" % (a["salt"], a["try"] + 1, admitted[1]["try"] + 1), rp)
+    elif finds:
+        run.violation("counterexample", "the salts issued by md5_challenge are not random per connection: " + "; ".join(finds), rp)
+
+
 def run_batch(run, wire, scs, stats, label):
     """wire: the `wire` binary, or `tlsauth` for scenarios built with tls=True"""
     results = W.run_scenarios(wire, [s["scn"] for s in scs], workers=16, timeout=120)
@@ -920,7 +1037,7 @@ def check(run):
         "the md-5 crate computes MD5 (environment): md5_hash_password is compared with Python hashlib on every unedited handshake of the run",
         "coq/Auth/Md5.v (RFC 1321, only used to RUN the model and in examples) agrees with hashlib: any disagreement shows up as a model/implementation difference",
         "a client's TCP byte stream is modelled as a finite list followed by EOF; a silent client never completes a startup (no admission)",
-        "salt unpredictability (rand::random) and timing side channels are not covered; TLS itself (rustls) is environment: the model treats an accepted TLS session as a transparent channel, the tie runs the handshakes through real rustls sessions with the repository's CI certificate",
+        "salt quality is checked statistically on the salts issued in the run (equal bytes, repeats, per-position value sets, position correlations; false-alarm bound in coverage.salt_monitor) and by a directed replay probe - a monitor, not a theorem; cryptographic unpredictability of rand and timing side channels are not covered; TLS itself (rustls) is environment: the model treats an accepted TLS session as a transparent channel, the tie runs the handshakes through real rustls sessions with the repository's CI certificate",
         "mock backend answers auth_query from a table (harness/src/mockpg.rs); PostgreSQL itself is not in the sandbox",
         "integer-overflow checks: the harness is a dev build (chk = true); the release behaviour (chk = false) is modelled and proved, not run",
     ]
@@ -929,12 +1046,13 @@ def check(run):
                                "props/c09.py (generator, canonicaliser, hashlib oracle)", "Print Assumptions: Closed under the global context (all theorems)"]
     proof_ok, log = vlib.prove(run, COQ_FILES, "Auth/Props.v", extra_targets=["Auth/Driver.vo"])
     run.log("proof ok=%s" % proof_ok)
-    ok, blog, bins = vlib.cargo_build(["wire", "tlsauth"])
+    ok, blog, bins = vlib.cargo_build(["wire", "tlsauth", "saltprobe"])
     if not ok:
         run.violation("tie-broken", "harness does not build against /repo (API used by the correspondence changed)",
                       {"correspondence": "wire harness build", "log": blog[-3000:]}, found_input=False)
         return
     wire = bins["wire"]
+    probe = start_salt_probe(bins["saltprobe"])          # runs beside the scenarios
     nsc = 56 if quick else 1500
     stats = {"classes": {}, "kinds": {}, "distinct": set(), "traces": 0, "md5_vectors": 0, "m2": 0, "backend_events": 0}
     allprobs = []
@@ -968,6 +1086,7 @@ def check(run):
     if not have_certs:
         run.assumptions.append("no certificate found under /repo/.circleci: the TLS path (startup_tls) was not run")
     report(run, allprobs)
+    finish_salt_probe(run, probe, stats)
     run.cov["evaluations"] = stats["traces"]
     run.cov["traces_validated_against_impl"] = stats["traces"] if model_ok else 0
     run.cov["distinct_nontrivial"] = len(stats["distinct"])
@@ -1008,7 +1127,19 @@ def monitors_only(run, wire, scs, stats):
 def replay(run, path):
     r = json.load(open(path))
     print(json.dumps({k: v for k, v in r.items() if k != "scenario"}, indent=1)[:3000])
-    ok, blog, bins = vlib.cargo_build(["wire", "tlsauth"])
+    ok, blog, bins = vlib.cargo_build(["wire", "tlsauth", "saltprobe"])
+    if r.get("monitor", "").startswith("salt quality"):
+        class _R:                      # collect what finish_salt_probe would report, without writing a replay file
+            broken, cov, out = [], {}, []
+            def violation(self, kind, what, rp, found_input=True):
+                self.out.append(what)
+        rr = _R()
+        finish_salt_probe(rr, start_salt_probe(bins["saltprobe"]), {})
+        print(json.dumps(rr.cov.get("salt_monitor"), indent=1)[:2500])
+        for w in rr.out:
+            print("replay:", w)
+        print("replay: %s" % ("reproduced" if rr.out else "not reproduced"))
+        return 1 if rr.out else 0
     if "scenario" not in r:
         return 0
     res = W.run_scenario(bins["tlsauth" if "tls_certificate" in r["scenario"].get("toml", "") else "wire"], r["scenario"])
